@@ -1430,37 +1430,42 @@ class VM:
                 elif missing:
                     yield i, UNDEFINED
 
+        def callback_and_this(args):
+            """The callback of an iteration method and the `this` it runs with
+            (the optional second argument). A callback that cannot be called
+            is a TypeError before anything is visited."""
+            callback = args[0] if args else UNDEFINED
+            if not (isinstance(callback, JSFunction) or callable(callback)):
+                raise JSTypeError(f"{to_string(callback)} is not a function")
+            return callback, (args[1] if len(args) > 1 else UNDEFINED)
+
         def map_fn(*args):
-            callback = args[0] if args else None
-            if not callback:
-                return JSArray()
+            callback, this_arg = callback_and_this(args)
             result = JSArray()
             result._elements = []
             for i, elem in visited_elements():
-                val = vm._call_callback(callback, [elem, i, arr])
+                val = vm._call_callback(callback, [elem, i, arr], this_arg)
                 result._elements.append(val)
             return result
 
         def filter_fn(*args):
-            callback = args[0] if args else None
-            if not callback:
-                return JSArray()
+            callback, this_arg = callback_and_this(args)
             result = JSArray()
             result._elements = []
             for i, elem in visited_elements():
-                val = vm._call_callback(callback, [elem, i, arr])
+                val = vm._call_callback(callback, [elem, i, arr], this_arg)
                 if to_boolean(val):
                     result._elements.append(elem)
             return result
 
         def reduce_fn(*args):
-            callback = args[0] if args else None
-            initial = args[1] if len(args) > 1 else UNDEFINED
-            if not callback:
-                raise JSTypeError("reduce callback is not a function")
-            acc = initial
+            callback, _ = callback_and_this(args)
+            # The number of arguments decides: reduce(f, undefined) starts
+            # from undefined, reduce(f) from the first element
+            no_initial = len(args) < 2
+            acc = UNDEFINED if no_initial else args[1]
             start_idx = 0
-            if acc is UNDEFINED:
+            if no_initial:
                 if not arr._elements:
                     raise JSTypeError("Reduce of empty array with no initial value")
                 acc = arr._elements[0]
@@ -1473,14 +1478,14 @@ class VM:
             return acc
 
         def reduceRight_fn(*args):
-            callback = args[0] if args else None
-            initial = args[1] if len(args) > 1 else UNDEFINED
-            if not callback:
-                raise JSTypeError("reduceRight callback is not a function")
-            acc = initial
+            callback, _ = callback_and_this(args)
+            # The number of arguments decides: reduce(f, undefined) starts
+            # from undefined, reduce(f) from the first element
+            no_initial = len(args) < 2
+            acc = UNDEFINED if no_initial else args[1]
             length = len(arr._elements)
             start_idx = length - 1
-            if acc is UNDEFINED:
+            if no_initial:
                 if not arr._elements:
                     raise JSTypeError("Reduce of empty array with no initial value")
                 acc = arr._elements[length - 1]
@@ -1524,11 +1529,9 @@ class VM:
             return result
 
         def forEach_fn(*args):
-            callback = args[0] if args else None
-            if not callback:
-                return UNDEFINED
+            callback, this_arg = callback_and_this(args)
             for i, elem in visited_elements():
-                vm._call_callback(callback, [elem, i, arr])
+                vm._call_callback(callback, [elem, i, arr], this_arg)
             return UNDEFINED
 
         def indexOf_fn(*args):
@@ -1554,41 +1557,33 @@ class VM:
             return -1
 
         def find_fn(*args):
-            callback = args[0] if args else None
-            if not callback:
-                return UNDEFINED
+            callback, this_arg = callback_and_this(args)
             for i, elem in visited_elements(missing=True):
-                val = vm._call_callback(callback, [elem, i, arr])
+                val = vm._call_callback(callback, [elem, i, arr], this_arg)
                 if to_boolean(val):
                     return elem
             return UNDEFINED
 
         def findIndex_fn(*args):
-            callback = args[0] if args else None
-            if not callback:
-                return -1
+            callback, this_arg = callback_and_this(args)
             for i, elem in visited_elements(missing=True):
-                val = vm._call_callback(callback, [elem, i, arr])
+                val = vm._call_callback(callback, [elem, i, arr], this_arg)
                 if to_boolean(val):
                     return i
             return -1
 
         def some_fn(*args):
-            callback = args[0] if args else None
-            if not callback:
-                return False
+            callback, this_arg = callback_and_this(args)
             for i, elem in visited_elements():
-                val = vm._call_callback(callback, [elem, i, arr])
+                val = vm._call_callback(callback, [elem, i, arr], this_arg)
                 if to_boolean(val):
                     return True
             return False
 
         def every_fn(*args):
-            callback = args[0] if args else None
-            if not callback:
-                return True
+            callback, this_arg = callback_and_this(args)
             for i, elem in visited_elements():
-                val = vm._call_callback(callback, [elem, i, arr])
+                val = vm._call_callback(callback, [elem, i, arr], this_arg)
                 if not to_boolean(val):
                     return False
             return True
